@@ -27,8 +27,10 @@ Slice, Fragment, Node = pm.Slice, pm.Fragment, pm.Node
 
 COMMAND_CALL_BUDGET = 300000
 
-REFUSAL_TYPES = (ValueError, AssertionError, IndexError, KeyError, AttributeError, TypeError,
-                 RecursionError, StopIteration)
+# any exception raised by library code inside a workload command is "command refused" for the
+# stub (the apply seam has already judged it if it is C01's business); harness bugs hidden this way
+# show up as refused:<Type> counters in the evidence
+REFUSAL_TYPES = (Exception,)
 
 
 # =============================================================================== store
@@ -157,6 +159,17 @@ def safe_maybe_step(tr, step):
         return tr.maybe_step(step)
     except ValueError:
         return _Failed()
+
+
+def safe_invert(sim, step, doc):
+    """Step.invert of a step that has just applied to `doc`.  An exception here is C04's business
+    (reported through the monitor); for the stub the command/rebase is then abandoned."""
+    try:
+        return step.invert(doc)
+    except Exception as e:  # noqa: BLE001
+        sim.stats["invert_raised:" + type(e).__name__] += 1
+        sim.mon.on_invert_raised(step, doc, e)
+        return None
 
 
 class Reb:
@@ -454,7 +467,10 @@ class Client(Party):
                                               "step": rec["step"]})
                         raise Internal("journal replay failed but C04 not monitored")
                     sim.mon.on_journal_replayed(self, i, rec, res.doc)
-                    unc.append(Reb(st, st.invert(doc), doc, res.doc, rec.get("tid", 0), bool(rec.get("u"))))
+                    inv = safe_invert(sim, st, doc)
+                    if inv is None:
+                        break
+                    unc.append(Reb(st, inv, doc, res.doc, rec.get("tid", 0), bool(rec.get("u"))))
                     # anything journaled may already have been pushed in the previous life
                     unc[-1].sent = True
                     doc = res.doc
@@ -561,7 +577,14 @@ class Client(Party):
             before = tr.docs[i]
             after = tr.docs[i + 1] if i + 1 < len(tr.docs) else tr.doc
             unclaimed = raw and isinstance(st, (pt.AddMarkStep, pt.RemoveMarkStep, pt.ReplaceAroundStep))
-            reb = Reb(st, st.invert(before), before, after, tid, unclaimed)
+            inv = safe_invert(sim, st, before)
+            if inv is None:
+                # abandon the rest of the transaction; what was committed so far stays consistent
+                self.doc = before
+                self.sel = (min(self.sel[0], before.content.size), min(self.sel[1], before.content.size))
+                self.rebuild_hist_tail()
+                return
+            reb = Reb(st, inv, before, after, tid, unclaimed)
             reb.native = not raw
             self.journal_append(reb)
             self.unconfirmed.append(reb)
@@ -652,7 +675,10 @@ class Client(Party):
                 res = safe_apply(r.step, doc)
                 if res.failed or res.doc is None:
                     return "reload-failed"
-                unc.append(Reb(r.step, r.step.invert(doc), doc, res.doc, r.tid, r.rebased_mark))
+                inv = safe_invert(sim, r.step, doc)
+                if inv is None:
+                    return "reload-failed"
+                unc.append(Reb(r.step, inv, doc, res.doc, r.tid, r.rebased_mark))
                 unc[-1].sent = r.sent
                 unc[-1].native = r.native
                 doc = res.doc
@@ -660,6 +686,93 @@ class Client(Party):
             new = doc
         self.doc = new
         return "ok"
+
+    def inspect(self, positions):
+        """read-only queries an editor UI makes all the time (toolbar state, cursor info, search):
+        none of them may change any document (C10: 'model queries')"""
+        sim = self.sim
+        sim.ctx_site = "client.inspect"
+        doc = self.doc
+        size = doc.content.size
+        ok = bad = 0
+
+        def q(fn):
+            nonlocal ok, bad
+            try:
+                fn()
+                ok += 1
+            except core.BudgetExceeded:
+                raise
+            except Exception as e:  # noqa: BLE001
+                bad += 1
+                sim.stats["inspect_refused:" + type(e).__name__] += 1
+
+        try:
+            with core.call_budget(COMMAND_CALL_BUDGET):
+                ps = [min(max(0, p), size) for p in positions]
+                for i, p in enumerate(ps):
+                    p2 = ps[(i + 1) % len(ps)]
+                    lo, hi = min(p, p2), max(p, p2)
+                    try:
+                        rp, rq = doc.resolve(p), doc.resolve(p2)
+                        rlo, rhi = doc.resolve(lo), doc.resolve(hi)
+                    except Exception:  # noqa: BLE001
+                        continue
+                    q(lambda: rp.marks())
+                    q(lambda: rp.marks_across(rq))
+                    q(lambda: rlo.marks_across(rhi))
+                    q(lambda: (rp.node_before, rp.node_after, rp.text_offset, rp.parent_offset))
+                    for d in range(rp.depth + 1):
+                        q(lambda d=d: (rp.node(d), rp.index(d), rp.index_after(d), rp.start(d), rp.end(d)))
+                        if d:
+                            q(lambda d=d: (rp.before(d), rp.after(d)))
+                    q(lambda: rp.shared_depth(p2))
+                    q(lambda: rp.same_parent(rq))
+
+                    def br():
+                        r = rlo.block_range(rhi)
+                        if r is not None:
+                            r.start, r.end, r.parent, r.start_index, r.end_index
+                            pt.lift_target(r)
+                            for t in list(self.schema.nodes.values())[:6]:
+                                if not t.is_text:
+                                    pt.find_wrapping(r, t)
+                    q(br)
+                    q(lambda: doc.node_at(p))
+                    q(lambda: doc.child_after(p))
+                    q(lambda: doc.child_before(p))
+                    q(lambda: doc.text_between(lo, hi, "\n", "*"))
+                    q(lambda: doc.slice(lo, hi))
+                    q(lambda: doc.slice(lo, hi, True))
+                    q(lambda: doc.cut(lo, hi))
+                    q(lambda: doc.content.cut(lo, hi))
+                    for m in self.schema.marks.values():
+                        q(lambda m=m: doc.range_has_mark(lo, hi, m))
+                    q(lambda: doc.nodes_between(lo, hi, lambda node, pos, parent, index: None))
+                    q(lambda: pt.can_split(doc, p))
+                    q(lambda: pt.can_join(doc, p))
+                    q(lambda: pt.join_point(doc, p))
+                    for t in list(self.schema.nodes.values())[:4]:
+                        q(lambda t=t: pt.insert_point(doc, p, t))
+                    q(lambda: pt.drop_point(doc, p, doc.slice(lo, hi)))
+                    par = rp.parent
+                    q(lambda: par.content_match_at(rp.index()))
+                    q(lambda: par.can_replace(rp.index(), rp.index()))
+                    q(lambda: par.type.allowed_marks(rp.marks()))
+                    q(lambda: par.content_match_at(rp.index()).fill_before(pm.Fragment.empty, True))
+                    q(lambda: doc.content.find_diff_start(doc.content))
+                    q(lambda: doc.content.find_diff_end(doc.content))
+                q(lambda: doc.text_content)
+                q(lambda: str(doc))
+                q(lambda: doc.eq(doc.copy(doc.content)))
+                q(lambda: doc.check())
+                q(lambda: doc.to_json())
+                q(lambda: doc.descendants(lambda node, pos, parent, index: None))
+                q(lambda: pm.Mark.set_from(list(reversed(doc.resolve(ps[0]).marks()))))
+        except core.BudgetExceeded:
+            sim.stats["refused:inspect:BudgetExceeded"] += 1
+        sim.stats["inspect.queries"] += ok
+        return "ok:%d/%d" % (ok, ok + bad)
 
     def clipboard(self, frm, to, dfrom, dto):
         import lxml.html
@@ -685,7 +798,7 @@ class Client(Party):
                     sim.stats["clipboard.parse_invalid"] += 1
                     return "parse-invalid"
                 psl = Slice.max_open(parsed.content)
-        except (core.BudgetExceeded,) + REFUSAL_TYPES as e:
+        except (core.BudgetExceeded, Exception) as e:
             sim.stats["refused:clipboard:" + type(e).__name__] += 1
             return "refused"
         sim.mon.retain("slice", psl)
@@ -707,10 +820,11 @@ class Client(Party):
             if new and not new[-1].sent and not reb.sent:
                 prev = new[-1]
                 m = prev.step.merge(reb.step)
-                if m is not None:
+                minv = safe_invert(sim, m, prev.doc_before) if m is not None else None
+                if m is not None and minv is not None:
                     sim.mon.on_merge(self, prev.step, reb.step, m, prev.doc_before, reb.doc_after,
                                      "outbox")
-                    new[-1] = Reb(m, m.invert(prev.doc_before), prev.doc_before, reb.doc_after,
+                    new[-1] = Reb(m, minv, prev.doc_before, reb.doc_after,
                                   prev.tid, prev.rebased_mark or reb.rebased_mark)
                     changed = True
                     sim.stats["outbox.merged"] += 1
@@ -871,8 +985,12 @@ class Client(Party):
                     tr.mapping.set_mirror(map_from, len(tr.steps) - 1)
                     before = tr.docs[-1]
                     is_mark = isinstance(mapped, (pt.AddMarkStep, pt.RemoveMarkStep))
-                    new_unc.append(Reb(mapped, mapped.invert(before), before, tr.doc, r.tid,
-                                       r.rebased_mark or is_mark))
+                    inv = safe_invert(sim, mapped, before)
+                    if inv is None:
+                        self.joined = False
+                        sim.send(self.cid, "auth", "join", {"cid": self.cid})
+                        return "invert-failed"
+                    new_unc.append(Reb(mapped, inv, before, tr.doc, r.tid, r.rebased_mark or is_mark))
             if not applied:
                 dropped += 1
             judged_pairs.append((r, mapped, applied))
@@ -1107,6 +1225,11 @@ class Sim:
             if c is None or not c.up or not c.joined:
                 return "skip"
             return c.clipboard(ev["from"], ev["to"], ev["dfrom"], ev["dto"])
+        if k == "inspect":
+            c = self.clients.get(ev["c"])
+            if c is None or not c.up or not c.joined:
+                return "skip"
+            return c.inspect(ev["pos"])
         if k == "anchor":
             c = self.clients.get(ev["c"])
             if c is None or not c.up or not c.joined:
@@ -1254,6 +1377,12 @@ class Sim:
         target = self.lookup_target(tuple(ev["target"]))
         if target is None:
             return "notarget"
+        if ev.get("steps"):
+            outs = []
+            for sj in ev["steps"]:
+                outs.append(self.byzantine({"k": "byz", "kind": ev.get("kind", "fuzz"), "target": ev["target"],
+                                            "step": sj}))
+            return ",".join(outs)
         sj = ev.get("step")
         if sj is None:
             msg = self.inflight.get(ev.get("msg")) or self.archive.get(ev.get("msg"))
@@ -1265,7 +1394,7 @@ class Sim:
             sj = p["steps"][ev.get("index", 0) % len(p["steps"])]
         sj = json.loads(json.dumps(sj))
         mut = ev.get("mut") or {}
-        for key, val in mut.items():
+        for key, val in sorted(mut.items(), key=lambda kv: kv[0] == "set"):
             if key == "shift":
                 for f in ("from", "to", "gapFrom", "gapTo", "pos"):
                     if f in sj and isinstance(sj[f], int):
@@ -1274,6 +1403,11 @@ class Sim:
                 for f, v in val.items():
                     if f in sj:
                         sj[f] = v
+                # keep the positions ordered (C01's quantifier) after independent perturbations
+                order = [f for f in ("from", "gapFrom", "gapTo", "to") if f in sj]
+                vals = sorted(sj[f] for f in order)
+                for f, v in zip(order, vals):
+                    sj[f] = v
             elif key == "structure":
                 if sj.get("stepType") in ("replace", "replaceAround"):
                     if val:
@@ -1493,14 +1627,55 @@ class Generator:
         index = rng.randrange(len(p["steps"]))
         ev = {"k": "byz", "kind": kind, "msg": mid, "index": index, "target": [tgt[0], tgt[1]]}
         if kind == "corrupt":
-            ev["mut"] = self.corruption(p["steps"][index], tgt[2])
+            mut = {}
+            for _ in range(rng.choice([1, 1, 2, 3])):
+                mut.update(self.corruption(p["steps"][index], tgt[2]))
+            if "slice" in mut and p["steps"][index].get("stepType") == "replaceAround" and rng.random() < 0.7:
+                # keep the insertion point inside the swapped-in slice
+                try:
+                    sl = Slice.from_json(sim.schema, mut["slice"])
+                    mut.setdefault("set", {})["insert"] = rng.randint(0, sl.size)
+                except ValueError:
+                    pass
+            ev["mut"] = mut
         self.emit(ev)
 
     def corruption(self, sj, target):
         """field corruption that tries to stay inside C01's quantifier"""
         rng, sim = self.rng, self.sim
         size = target.content.size
-        choice = rng.choice(["shift", "set", "structure", "slice", "mark", "value"])
+        choice = rng.choice(["shift", "set", "structure", "slice", "mark", "value", "nearmiss", "nearmiss"])
+        if choice == "nearmiss":
+            # move one boundary by a token or two and re-align the far end so that the open depths
+            # stay consistent: the step stays structurally plausible but wrong for the document
+            fields = [f for f in ("from", "gapFrom", "gapTo", "to") if f in sj and isinstance(sj[f], int)]
+            if not fields:
+                return {}
+            new = {f: sj[f] for f in fields}
+            fld = rng.choice(fields)
+            delta = rng.choice([-2, -1, 1, 1, 2])
+            new[fld] = min(size, max(0, new[fld] + delta))
+            # push the outer fields along instead of swapping values
+            if delta > 0:
+                for a, b in zip(fields, fields[1:]):
+                    new[b] = max(new[b], new[a])
+            else:
+                for a, b in zip(reversed(fields[:-1]), reversed(fields[1:])):
+                    new[a] = min(new[a], new[b])
+            try:
+                sl = Slice.from_json(sim.schema, sj.get("slice"))
+                want = target.resolve(new["from"]).depth - sl.open_start + sl.open_end
+                if rng.random() < 0.7:
+                    for q in range(new["to"], min(size, new["to"] + 12) + 1):
+                        if target.resolve(q).depth == want:
+                            new["to"] = q
+                            break
+            except (ValueError, KeyError):
+                pass
+            out = {"set": new}
+            if rng.random() < 0.5:
+                out["structure"] = False
+            return out
         if choice == "shift":
             return {"shift": rng.choice([-3, -2, -1, 1, 2, 3])}
         if choice == "set":
@@ -1551,6 +1726,24 @@ class Generator:
                 for j in range(i + 1, len(cs)):
                     if sim.clients[cs[i]].version == sim.clients[cs[j]].version:
                         self.emit({"k": "probe", "what": "c17pair", "a": cs[i], "b": cs[j]})
+        if sim.cfg.get("probe17") and sim.auth.up and rng.random() < 0.7:
+            D = sim.auth.doc
+            ops = []
+            tp = gen.text_positions(D)
+            for _ in range(rng.randint(2, 4)):
+                kinds = list(sim.cfg["mix"])
+                kind = rng.choices(kinds, [sim.cfg["mix"][k] for k in kinds])[0]
+                a = rng.choice(tp) if tp and rng.random() < 0.7 else gen.rand_pos(rng, D)
+                b = a if rng.random() < 0.6 else min(D.content.size, a + rng.randint(1, 6))
+                try:
+                    with core.call_budget(COMMAND_CALL_BUDGET):
+                        op = gen.gen_op(rng, kind, D, (a, b), [])
+                except core.BudgetExceeded:
+                    op = None
+                if op is not None:
+                    ops.append(op)
+            if len(ops) >= 2:
+                self.emit({"k": "probe", "what": "c17round", "base": ["auth", 0], "ops": ops})
         if not self.faults_on():
             if sim.partitioned:
                 self.emit({"k": "heal"})
@@ -1577,6 +1770,21 @@ class Generator:
             else:
                 self.emit({"k": "arm", "party": "auth", "site": site, "after": rng.randint(0, 2),
                            "torn": r() < f["torn"]})
+        if f["byz"] and r() < f["byz"]:
+            live = sim.live_docs()
+            tgt = rng.choice(live)
+            pool = [d for (_, _, d) in live if d is not tgt[2]]
+            steps = []
+            for _ in range(rng.randint(2, 6)):
+                try:
+                    with core.call_budget(COMMAND_CALL_BUDGET):
+                        sj = gen.gen_raw_step(rng, tgt[2], (0, 0), pool)
+                except (core.BudgetExceeded, ValueError):
+                    sj = None
+                if sj is not None:
+                    steps.append(sj)
+            if steps:
+                self.emit({"k": "byz", "kind": "fuzz", "target": [tgt[0], tgt[1]], "steps": steps})
         if r() < f["partition"]:
             if sim.partitioned:
                 self.emit({"k": "heal"})
@@ -1641,6 +1849,12 @@ class Generator:
             a, b = gen.rand_range(rng, c.doc, 12)
             d1, d2 = gen.rand_range(rng, c.doc, 3)
             self.emit({"k": "clipboard", "c": cid, "from": a, "to": b, "dfrom": d1, "dto": d2})
+            return
+        if rng.random() < cfg.get("inspect_p", 0.05):
+            ps = [gen.rand_pos(rng, c.doc) for _ in range(rng.randint(2, 4))]
+            if rng.random() < 0.5:
+                ps[0] = c.sel[0]
+            self.emit({"k": "inspect", "c": cid, "pos": ps})
             return
         if rng.random() < cfg.get("anchor_p", 0.05):
             a, b = gen.rand_range(rng, c.doc, 10)
